@@ -68,8 +68,9 @@ def modulo : FilterImpl
 /-- the integer branch of `divided_by`: `int64(a) / int64(q)`, truncating both the receiver and the
 quotient toward zero, two's-complement wrap for `MinInt64 / -1` -/
 def divInt (a : Rat) (q : Int) : Res Cause (Except Cause GoVal) :=
-  (floatToInt64 a).bind fun n =>
-    if q == 0 then retErr .divZero else ret (.int .i64 (wrapInt64 (Int.tdiv n q)))
+  -- Go evaluates `int64(a)` first, but a zero divisor is an error whatever that value is
+  if q == 0 then retErr .divZero else
+  (floatToInt64 a).bind fun n => ret (.int .i64 (wrapInt64 (Int.tdiv n q)))
 
 def divFloat (a q : Rat) : Res Cause (Except Cause GoVal) :=
   if q == 0 then retErr .divZero else fltResult (a / q) (decide (a < 0) != decide (q < 0))
